@@ -207,7 +207,9 @@ CLAIMED["C09"] = dict(
     "functions_by_block of functionBlocks (mirror invariant); the only state _apply_modifications carries between "
     "the modifications of a block is the running offset: a request list processed in one go equals a prefix "
     "followed by the rest (bytes and positions); functions_by_block agrees with functionBlocks after every insert/"
-    "delete of a batch, for every request list and every block list (function_cache_agrees_at_every_step). Oracle: the real module after one apply() against the module "
+    "delete of a batch, for every request list and every block list (function_cache_agrees_at_every_step); the block "
+    "ordering names only attached blocks of the right section, once per chain, and every symbol referent is a block "
+    "of the module at every step (caches_name_module_blocks_at_every_step). Oracle: the real module after one apply() against the module "
     "obtained by applying the requests one at a time in fresh contexts (canonical dumps); after every recorded "
     "operation of the batch run the caches' answers against the IR; retarget_symbol_uses in the same context; what a "
     "batch refused at its last request leaves behind against the same requests one at a time. Partial: batch = sequential for whole modules "
